@@ -669,8 +669,8 @@ class _AdapterOps:
     ``iscoroutinefunction`` answers come from the scenario; every call of a user callable is
     logged in env['@calls']."""
 
-    def __init__(self, ctx, module, scenario: dict):
-        self.ctx, self.module, self.sc = ctx, module, scenario
+    def __init__(self, ctx, module, scenario: dict, cls=None):
+        self.ctx, self.module, self.sc, self.cls = ctx, module, scenario, cls
 
     def attr(self, value, name, node, env):
         if value == "SELF":
@@ -703,7 +703,17 @@ class _AdapterOps:
         if last == "cast" and len(args) == 2:
             return args[1]
         if r.kind == "lib":
+            u_ = self.ctx.pkg.lib_unit(r.qual)
+            if u_ is not None:
+                last = self.ctx.pkg.canonical(u_).split(".")[-1]  # (under its anchor name when it was renamed / moved)
             return ("lib", last, self._args(node, env))
+        if isinstance(node.func, ast.Attribute) and self.cls is not None and node.func.attr in self.cls.methods \
+                and (ev.eval(node.func.value, env) == "SELF" or norm(node.func.value) == self.cls.name) \
+                and "@f:" + node.func.attr not in env:
+            # a helper kept as a static method of the wrapper class: the library function it is (by its anchor name)
+            m_ = self.cls.methods[node.func.attr]
+            if m_.is_static():
+                return ("lib", self.ctx.pkg.canonical(m_).split(".")[-1], self._args(node, env))
         callee = ev.eval(node.func, env)
         if callee in ("FUNC", "CACHED") or (isinstance(callee, tuple) and callee[:1] in (("meth",), ("lib",))):
             return ("call", callee, self._args(node, env))
@@ -717,7 +727,7 @@ class _AdapterOps:
 
 
 def _adapter_run(ctx, u, scenario, env, skip=()):
-    ops = _AdapterOps(ctx, u.module, scenario)
+    ops = _AdapterOps(ctx, u.module, scenario, cls=u.cls)
     return Machine(cfg_of(u), ops, resolver=make_resolver(ctx, u, ops, skip=skip)).run(env)
 
 
@@ -764,7 +774,7 @@ def r03_3(ctx) -> None:
                   f"[{'coroutine function' if is_coro else 'other callable'}] awaitify " + (
                       "passes it through" if is_coro else "wraps it for run-time detection"), witness=str(sorted(map(str, got))))
     # --- Awaitify.__call__
-    a = ctx.unit("_core.Awaitify.__call__")
+    a = ctx.inlined(ctx.unit("_core.Awaitify.__call__"))  # (the first-call probe may be a private step)
     info = a.cls
     init = info.methods.get("__init__")
     me = a.param_names()[0]
